@@ -81,8 +81,11 @@ class DecCtx(StrMixin, VerifContext):
         raise Unsupported(f"format spec {spec!r}")
 
     def sorted_model(self, interp, x, kwargs):
-        if getattr(self, "sorted_is_identity", False) and isinstance(x, list):
-            return list(x)       # contract stated for name-sorted lists (the writer's sort is a permutation)
+        if getattr(self, "sorted_is_identity", False) and isinstance(x, list) and all(isinstance(e, (SObj, SStr, str)) for e in x):
+            return list(x)       # contract stated for name-sorted lists of species (the writer's sort is a permutation)
+        if isinstance(x, list) and len(x) == 2 and all(isinstance(e, (SReal, SInt, int, float)) for e in x) and not kwargs:
+            from pyvc.ops import term_of
+            return list(x) if interp.branch(term_of(x[0]) <= term_of(x[1])) else [x[1], x[0]]      # sorted() of two numbers
         return super().sorted_model(interp, x, kwargs)
 
     def pad_string(self, interp, v, align, width):
